@@ -142,10 +142,10 @@ func runC22(cs c22Case) (string, []lib.Problem) {
 	lim := limitsOf(spec, cs.Cfg.Memory)
 
 	type bank struct {
-		open              bool
-		row               uint64
-		lastAct, lastPre  int64
-		hasAct, hasPre    bool
+		open             bool
+		row              uint64
+		lastAct, lastPre int64
+		hasAct, hasPre   bool
 	}
 	banks := map[bankKey]*bank{}
 	kinds := map[string]int{}
@@ -242,9 +242,9 @@ func enumC22(c *lib.Ctx, yield func(c22Case) bool) {
 
 func init() {
 	lib.Register(&lib.Check{
-		ID:    "C22",
-		Level: "exploration",
-		Rule: "every DRAM preset {DDR4, DDR5, HBM2, HBM3, GDDR6} x page policy {open, close} x queue setting {preset, 2-entry} x issue {back-to-back, one at a time} x every sequence of 1..k (quick 3, thorough 4) requests over {read, write} x address class {same row (2 columns), same bank other row, other bank, other bank group/rank} (classes found by probing the real address mapper); the command stream reported by the verif observer hook is checked against a per-bank state machine (ACT only on a closed bank; RD/WR/RDA/WRA only on the open row; PRE only on an open bank; RDA/WRA close) and against minimum separations recomputed from the Spec independently of the controller's timing table: ACT->RD/WR (tRCD-tAL, or tRCDRD/tRCDWR on HBM/GDDR), ACT->PRE (tRAS), PRE->ACT (tRP), ACT->ACT same bank (tRAS+tRP); completion and data via the C16 flat-memory oracle. Each (preset, policy, queue, issue, script) is a distinct case.",
+		ID:          "C22",
+		Level:       "exploration",
+		Rule:        "every DRAM preset {DDR4, DDR5, HBM2, HBM3, GDDR6} x page policy {open, close} x queue setting {preset, 2-entry} x issue {back-to-back, one at a time} x every sequence of 1..k (quick 3, thorough 4) requests over {read, write} x address class {same row (2 columns), same bank other row, other bank, other bank group/rank} (classes found by probing the real address mapper); the command stream reported by the verif observer hook is checked against a per-bank state machine (ACT only on a closed bank; RD/WR/RDA/WRA only on the open row; PRE only on an open bank; RDA/WRA close) and against minimum separations recomputed from the Spec independently of the controller's timing table: ACT->RD/WR (tRCD-tAL, or tRCDRD/tRCDWR on HBM/GDDR), ACT->PRE (tRAS), PRE->ACT (tRP), ACT->ACT same bank (tRAS+tRP); completion and data via the C16 flat-memory oracle. Each (preset, policy, queue, issue, script) is a distinct case.",
 		Sharded:     true,
 		MinOutcomes: 20,
 		Assumptions: []string{"only the separations the property names (plus same-bank tRC) are judged; the rest of the JEDEC table is recorded but not judged", "runs are short (no refresh window is reached)"},
